@@ -33,8 +33,29 @@ Sources == [first : Lists, trailing : BOOLEAN, sep : {"spaced", "tight"}, eol : 
 (* what must remain of the derive attributes (an emptied list stays as `derive()`) *)
 StripDerives(s) == <<Keep(s.first)>> \o (IF s.second = <<>> THEN <<>> ELSE <<Keep(s.second)>>)
 
+(* Part 1b, Item: the rest of the enum item.  Attributes are abstract names; "logos", "token" and "regex" are the  *)
+(* ones that must go, every other one stays where it is and in the same order: doc comments, attributes of other    *)
+(* derives (serde), and attributes whose names merely START like the removed ones (token_kind, logos_ext).          *)
+(* vattrs: the attributes of one variant in source order; eattrs: attributes of the enum between the derive and the *)
+(* `enum` keyword; field: what the variant carries (a tuple field, a tuple field with an attribute of its own, an    *)
+(* explicit discriminant); vis / gen: visibility and generics (lifetime, type parameter with a bound, where clause), *)
+(* which must be printed as they are.                                                                                *)
+AttrName == {"token", "regex", "serde", "token_kind", "logos_ext"}
+IsLogosAttr(a) == a \in {"logos", "token", "regex"}
+AttrSeqs == UNION {[1..n -> AttrName] : n \in 0..3}
+RECURSIVE KeepAttrs(_)
+KeepAttrs(s) == IF s = <<>> THEN <<>> ELSE (IF IsLogosAttr(Head(s)) THEN <<>> ELSE <<Head(s)>>) \o KeepAttrs(Tail(s))
+Items == [vis : {"pub", "priv", "crate"}, gen : {"none", "lt", "ty", "ty_where"}, vattrs : AttrSeqs,
+          field : {"unit", "tuple", "tuple_attr", "disc"},
+          eattrs : {<<"logos">>, <<"logos", "serde">>, <<"serde", "logos">>, <<"logos", "logos_ext", "logos">>, <<"token_kind", "logos">>}]
+\* nothing but the three kinds is removed, and what remains keeps its order
+KeepIsExact == \A s \in AttrSeqs : /\ \A i \in 1..Len(KeepAttrs(s)) : ~IsLogosAttr(KeepAttrs(s)[i])
+                                   /\ Len(KeepAttrs(s)) = Cardinality({i \in 1..Len(s) : ~IsLogosAttr(s[i])})
+
+ASSUME KeepIsExact
+
 -----------------------------------------------------------------------------
-VARIABLES mode,   \* "strip" | "files"
+VARIABLES mode,   \* "strip" | "item" | "files"
           src,    \* part 1: the source record
           file,   \* part 2: state of the output file
           hist    \* part 2: <<op, exit, file after>> so far
@@ -48,18 +69,24 @@ vars == <<mode, src, file, hist>>
 (* line endings and "addeol" appends a final line break to an exact copy: both still hold the output  *)
 (* "ignoring line endings".                                                                            *)
 Damage == {"tamper", "cutline", "chop", "flip", "empty"}
-Ops == {"write", "check", "crlf", "addeol", "delete"} \cup Damage
+(* "writef" / "checkf": the same with --format: the output is then the text rustfmt makes of the generated code,  *)
+(* and a file is up to date iff it holds THAT text ("fmt"); a file holding the unformatted output is not up to    *)
+(* date for --format and vice versa.                                                                               *)
+Ops == {"write", "check", "writef", "checkf", "crlf", "addeol", "delete"} \cup Damage
 UpToDate == {"current", "crlf", "eol"}
 
 Apply(op, f) ==
   CASE op = "write"  -> [exit |-> 0, file |-> IF f \in UpToDate THEN f ELSE "current"]   \* an up-to-date file (modulo line endings) is left alone
     [] op = "check"  -> [exit |-> IF f \in UpToDate THEN 0 ELSE 1, file |-> f]
+    [] op = "writef" -> [exit |-> 0, file |-> "fmt"]
+    [] op = "checkf" -> [exit |-> IF f = "fmt" THEN 0 ELSE 1, file |-> f]
     [] op \in Damage -> [exit |-> 0, file |-> IF f = "absent" THEN "absent" ELSE "stale"]
     [] op = "crlf"   -> [exit |-> 0, file |-> IF f = "current" THEN "crlf" ELSE f]
     [] op = "addeol" -> [exit |-> 0, file |-> IF f = "current" THEN "eol" ELSE f]
     [] op = "delete" -> [exit |-> 0, file |-> "absent"]
 
 Init == \/ (mode = "strip" /\ src \in Sources /\ file = "absent" /\ hist = <<>>)
+        \/ (mode = "item" /\ src \in Items /\ file = "absent" /\ hist = <<>>)
         \/ (mode = "files" /\ src = [first |-> <<"Debug", "Logos">>, trailing |-> FALSE, sep |-> "spaced", eol |-> "lf", second |-> <<>>, extras |-> "none", nlogos |-> 1]
             /\ file = "absent" /\ hist = <<>>)
 
@@ -73,11 +100,14 @@ Next == \E op \in Ops : Step(op)
 Spec == Init /\ [][Next]_vars
 
 (* --check never modifies the file; it succeeds iff the file holds the output *)
-CheckIsReadOnly == [][\A op \in Ops : (Step(op) /\ op = "check") => file' = file]_vars
+CheckIsReadOnly == [][\A op \in Ops : (Step(op) /\ op \in {"check", "checkf"}) => file' = file]_vars
 CheckIffCurrent == \A i \in 1..Len(hist) :
-                     hist[i][1] = "check" =>
-                       (hist[i][2] = 0) = ((IF i = 1 THEN "absent" ELSE hist[i - 1][3]) \in UpToDate)
+                     /\ hist[i][1] = "check" =>
+                          (hist[i][2] = 0) = ((IF i = 1 THEN "absent" ELSE hist[i - 1][3]) \in UpToDate)
+                     /\ hist[i][1] = "checkf" =>
+                          (hist[i][2] = 0) = ((IF i = 1 THEN "absent" ELSE hist[i - 1][3]) = "fmt")
 
 EmitStrip == mode = "strip" => PrintT(<<"STRIP", ToJson([src |-> src, keep |-> StripDerives(src)])>>)
+EmitItem  == mode = "item" => PrintT(<<"ITEM", ToJson([src |-> src, vkeep |-> KeepAttrs(src.vattrs), ekeep |-> KeepAttrs(src.eattrs)])>>)
 EmitFiles == (mode = "files" /\ Len(hist) = MaxOps) => PrintT(<<"FILES", ToJson([hist |-> hist])>>)
 =============================================================================
